@@ -277,10 +277,17 @@ func getEncoder(t reflect.Type, state *stateEncode) (*encoder, error) {
 			}
 			state = state.child
 
+			empty := t.Elem().Size() == 0
 			for i := 0; i < l; i++ {
 				state.encodeType = false
+				before := b.Len()
 				if err := encItem.Encode(value.Index(i), b, state); err != nil {
 					return err
+				}
+				if empty && b.Len() == before {
+					// elements without content write nothing, and there is nothing to tell them apart
+					// (an array type received from a peer may claim billions of them)
+					break
 				}
 			}
 
